@@ -115,16 +115,19 @@ def setSlot : SlotScope → Str → SlotContent → SlotScope
   | [], n, c => [(n, c)]
   | (n', c') :: r, n, c => if n' == n then (n, c) :: r else (n', c') :: setSlot r n c
 
+/-- one child of the include tag, in `extractSlotContent`'s walk: (named slots so far, default-slot content so far) -/
+def slotStep (acc : SlotScope × List Node) (k : Node) : SlotScope × List Node :=
+  match k with
+  | .text d => if trimSpace d != [] then (acc.1, acc.2 ++ [.text d]) else acc
+  | .elem tag attrs ks =>
+    if tag == S "template" && hasVSlot attrs then (setSlot acc.1 (slotNameOf attrs) { nodes := ks, tmpl := some (attrs, ks) }, acc.2)
+    else (acc.1, acc.2 ++ [k])
+  | _ => acc
+
 /-- `extractSlotContent(node)` -/
 def extractSlotContent (kids : List Node) : SlotScope :=
-  let (scope, dflt) := kids.foldl (fun (acc : SlotScope × List Node) k =>
-    match k with
-    | .text d => if trimSpace d != [] then (acc.1, acc.2 ++ [.text d]) else acc
-    | .elem tag attrs ks =>
-      if tag == S "template" && hasVSlot attrs then (setSlot acc.1 (slotNameOf attrs) { nodes := ks, tmpl := some (attrs, ks) }, acc.2)
-      else (acc.1, acc.2 ++ [k])
-    | _ => acc) ([], [])
-  if !dflt.isEmpty then setSlot scope (S "default") { nodes := dflt, tmpl := none } else scope
+  let r := kids.foldl slotStep ([], [])
+  if !r.2.isEmpty then setSlot r.1 (S "default") { nodes := r.2, tmpl := none } else r.1
 
 /-- scoped variable name of a slot template: the value of the last `v-slot`, `v-slot:x` or `#x` attribute -/
 def scopedVarName (attrs : List Attr) : Str :=
@@ -304,6 +307,93 @@ end
 
 def includeLimit : Nat := Generated.includeMaxDepth.getD 1000000
 
+/-- sequencing of state-passing results -/
+def bindR {α β : Type} (r : R α) (k : α → St → R β) : R β :=
+  match r with
+  | .ok (a, st) => k a st
+  | .err c m => .err c m
+  | .panic s => .panic s
+  | .hang s => .hang s
+  | .fuel => .fuel
+
+/-- sequencing of a pure (stack-reading) result into a state-passing one -/
+def bindE {α β : Type} (r : Res α) (k : α → R β) : R β :=
+  match r with
+  | .ok a => k a
+  | .err c m => .err c m
+  | .panic s => .panic s
+  | .hang s => .hang s
+  | .fuel => .fuel
+
+def prepend (res : List Node) (r : R (List Node)) : R (List Node) := bindR r (fun out st => .ok (res ++ out, st))
+
+/-- bound attributes of a `<template>` chain member set variables in the current scope: expr-lang, then path, else nil -/
+def setTemplateBound (P : Params) (attrs : List Attr) (stack : Stack) : Stack :=
+  attrs.foldl (fun (sk : Stack) (a : Attr) =>
+    match isBoundKey a.1 with
+    | some name =>
+      let e := trimSpace a.2
+      (match P.exprEval e (sk.envMap P.cfg) with
+       | .ok v => sk.set name v
+       | _ => (match sk.resolve P.cfg e with | .ok (some v) => sk.set name v | _ => sk.set name .nil))
+    | none => sk) stack
+
+/-- one attribute of a scope-setting `<template>` (evalTemplate's attribute loop) -/
+def setTemplateAttr (W_P : Params) (jsonDecode : Str → Option Val) (sk : Stack) (a : Attr) : Res Stack :=
+  let key := a.1
+  let val := trimSpace a.2
+  if hasPrefix key (S "v-") then .ok sk        -- directive attributes, `v-bind:` included (it starts with "v-")
+  else if hasPrefix key [':'] then
+    let name := key.drop 1
+    if name == S "require" || name == S "required" then .ok sk
+    else
+      match evalPipe W_P sk (parsePipeExpr val) with
+      | .ok v => .ok (sk.set name v)
+      | .err _ _ =>
+        (match W_P.exprEval val (sk.envMap W_P.cfg) with
+         | .ok v => .ok (sk.set name v)
+         | .err _ _ => (match sk.resolve W_P.cfg val with | .ok (some v) => .ok (sk.set name v) | .ok none => .ok (sk.set name .nil) | r => r.castErr)
+         | r => r.castErr)
+      | r => r.castErr
+  else if hasPrefix val ['{'] || hasPrefix val ['['] then
+    (match jsonDecode val with | some v => .ok (sk.set key v) | none => .ok (sk.set key (.str val)))
+  else .ok (sk.set key (.str val))
+
+def setTemplateAttrs (P : Params) (jsonDecode : Str → Option Val) : List Attr → Stack → Res Stack
+  | [], sk => .ok sk
+  | a :: r, sk => match setTemplateAttr P jsonDecode sk a with | .ok sk' => setTemplateAttrs P jsonDecode r sk' | e => e
+
+/-- the stack inside a slot template: a fresh scope holding the slot props under the declared name, destructured, or directly -/
+def slotScopeStack (stack : Stack) (sv : Str) (props : Scope) : Stack :=
+  let pushed := stack.push []
+  match destructuredNames sv with
+  | some names => names.foldl (fun (k : Stack) nm => match Scope.get props nm with | some v => k.set nm v | none => k) pushed
+  | none => if sv != [] then pushed.set sv (.map .anyMap props) else setMany pushed props
+
+def slotProps (P : Params) (env : Scope) (attrs : List Attr) : Scope :=
+  attrs.foldl (fun (ps : Scope) (a : Attr) =>
+    match a.1 with
+    | ':' :: pn => (match P.exprEval a.2 env with | .ok .nil => ps | .ok v => Scope.set ps pn v | _ => ps)
+    | _ => ps) []
+
+def loopStack (stack : Stack) (vars : List Str) (x : Val) (i : Nat) : Option Stack :=
+  let pushed := stack.push []
+  match vars with
+  | [v] => some (pushed.set v x)
+  | [iv, v] => some ((pushed.set iv (.int .int i)).set v x)
+  | _ => none
+
+/-- the up-front `:required` check of a component whose file starts with a `<template>` wrapper (not an include) -/
+def wrapperRequired (dom : List Node) (env : Scope) : Option Str :=
+  match dom with
+  | .elem t a _ :: _ => if t == S "template" && !hasAttr a (S "include") then checkRequired a env else none
+  | _ => none
+
+def decodeVars (jsonDecode : Str → Option Val) (vars : Scope) : Scope :=
+  (vars.filter (fun kv => kv.1 != S "include")).map (fun (kv : Str × Val) => match kv.2 with
+    | .str t => if hasPrefix t ['{'] || hasPrefix t ['['] then (match jsonDecode t with | some v => (kv.1, v) | none => kv) else kv
+    | _ => kv)
+
 mutual
 
 /-- `evaluate(ctx, nodes)` -/
@@ -314,14 +404,11 @@ def evalList (W : World) : Nat → Ctx → St → List Node → R (List Node)
     match n with
     | .text d =>
       (match interpolate W.P st.stack d with
-       | .ok t =>
-         (match evalList W f ctx st rest with
-          | .ok (out, st') => .ok (.text t :: out, st')
-          | e => e)
+       | .ok t => prepend [.text t] (evalList W f ctx st rest)
        | .err c m => .err c (S "in " ++ formatChain ctx ++ S ": " ++ m)
        | e => e.castErr)
-    | .comment d => (match evalList W f ctx st rest with | .ok (out, st') => .ok (.comment d :: out, st') | e => e)
-    | .doctype d => (match evalList W f ctx st rest with | .ok (out, st') => .ok (.doctype d :: out, st') | e => e)
+    | .comment d => prepend [.comment d] (evalList W f ctx st rest)
+    | .doctype d => prepend [.doctype d] (evalList W f ctx st rest)
     | .elem tag attrs kids =>
       -- v-once (checked per iteration on the clones when the element also carries v-for)
       let onceHere := hasAttr attrs (S "v-once") && !hasAttr attrs (S "v-for")
@@ -329,52 +416,31 @@ def evalList (W : World) : Nat → Ctx → St → List Node → R (List Node)
       if onceHere && st.seen.contains id then evalList W f ctx st rest
       else
         let st := if onceHere then { st with seen := st.seen ++ [id] } else st
-        if hasAttr attrs (S "v-pre") then
-          (match evalList W f ctx st rest with | .ok (out, st') => .ok (.elem tag attrs kids :: out, st') | e => e)
+        if hasAttr attrs (S "v-pre") then prepend [.elem tag attrs kids] (evalList W f ctx st rest)
         else if hasAttr attrs (S "v-for") then
-          (match evalVFor W f ctx st tag attrs kids rest with
-           | .ok ((res, skip), st1) =>
-             (match evalList W f ctx st1 (rest.drop skip) with | .ok (out, st') => .ok (res ++ out, st') | e => e)
-           | e => e.castErr)
+          bindR (evalVFor W f ctx st tag attrs kids rest) (fun rs st1 => prepend rs.1 (evalList W f ctx st1 (rest.drop rs.2)))
         else if tag == S "slot" then
-          (match evalSlot W f ctx st attrs kids with
-           | .ok (res, st1) => (match evalList W f ctx st1 rest with | .ok (out, st') => .ok (res ++ out, st') | e => e)
-           | e => e)
+          bindR (evalSlot W f ctx st attrs kids) (fun res st1 => prepend res (evalList W f ctx st1 rest))
         else if hasAttr attrs (S "v-if") then
-          (match chainSelect (evalCondition W.P st.stack) (getAttr attrs (S "v-if")) rest with
-           | .ok (pick, skip) =>
-             let chosen : Option Node := match pick with | .none => none | .member 0 => some n | .member (i + 1) => rest[i]?
-             (match chosen with
-              | some (.elem t a k) =>
-                (match evalAsElement W f ctx st t a k with
-                 | .ok (res, st1) => (match evalList W f ctx st1 (rest.drop skip) with | .ok (out, st') => .ok (res ++ out, st') | e => e)
-                 | e => e)
-              | _ => evalList W f ctx st (rest.drop skip))
-           | e => e.castErr)
+          bindE (chainSelect (evalCondition W.P st.stack) (getAttr attrs (S "v-if")) rest) (fun ps =>
+            let chosen : Option Node := match ps.1 with | .none => none | .member 0 => some n | .member (i + 1) => rest[i]?
+            match chosen with
+            | some (.elem t a k) => bindR (evalAsElement W f ctx st t a k) (fun res st1 => prepend res (evalList W f ctx st1 (rest.drop ps.2)))
+            | _ => evalList W f ctx st (rest.drop ps.2))
         else if hasAttr attrs (S "v-else-if") || hasAttr attrs (S "v-else") then evalList W f ctx st rest
         else if tag == S "template" then
-          (match evalTemplate W f ctx st attrs kids with
-           | .ok (res, st1) =>
-             let res' := if hasAttr attrs (S "v-keep") then [.elem tag attrs res] else res
-             (match evalList W f ctx st1 rest with | .ok (out, st') => .ok (res' ++ out, st') | e => e)
-           | e => e)
+          bindR (evalTemplate W f ctx st attrs kids) (fun res st1 =>
+            prepend (if hasAttr attrs (S "v-keep") then [.elem tag attrs res] else res) (evalList W f ctx st1 rest))
         else
-          (match evalPlain W f ctx st tag attrs kids with
-           | .ok (res, st1) => (match evalList W f ctx st1 rest with | .ok (out, st') => .ok (res ++ out, st') | e => e)
-           | e => e)
+          bindR (evalPlain W f ctx st tag attrs kids) (fun res st1 => prepend res (evalList W f ctx st1 rest))
 
 /-- the plain-element path of `evaluate` and the tail of `evaluateNodeAsElement` -/
 def evalPlain (W : World) : Nat → Ctx → St → Str → List Attr → List Node → R (List Node)
   | 0, _, _, _, _, _ => .fuel
   | f + 1, ctx, st, tag, attrs, kids =>
-    match elementPrologue W.P st.stack attrs with
-    | .ok (attrs', hasContentDirective, cleared) =>
-      if hasContentDirective then .ok ([.elem tag attrs' (if cleared then [] else kids)], st)
-      else
-        (match evalList W f ctx st kids with
-         | .ok (ks, st') => .ok ([.elem tag attrs' ks], st')
-         | e => e)
-    | e => e.castErr
+    bindE (elementPrologue W.P st.stack attrs) (fun pr =>
+      if pr.2.1 then .ok ([.elem tag pr.1 (if pr.2.2 then [] else kids)], st)
+      else bindR (evalList W f ctx st kids) (fun ks st' => .ok ([.elem tag pr.1 ks], st')))
 
 /-- `evaluateNodeAsElement` -/
 def evalAsElement (W : World) : Nat → Ctx → St → Str → List Attr → List Node → R (List Node)
@@ -383,16 +449,8 @@ def evalAsElement (W : World) : Nat → Ctx → St → Str → List Attr → Lis
     let vFor := getAttr attrs (S "v-for")
     if vFor != [] then evalFor W f ctx st tag attrs kids vFor
     else if tag == S "template" then
-      -- bound attributes are set in the current scope (expr-lang, then path, else nil); no pipe interpreter on this path
-      let stack' := attrs.foldl (fun (sk : Stack) (a : Attr) =>
-        match isBoundKey a.1 with
-        | some name =>
-          let e := trimSpace a.2
-          (match W.P.exprEval e (sk.envMap W.P.cfg) with
-           | .ok v => sk.set name v
-           | _ => (match sk.resolve W.P.cfg e with | .ok (some v) => sk.set name v | _ => sk.set name .nil))
-        | none => sk) st.stack
-      evalList W f ctx { st with stack := stack' } kids
+      -- bound attributes are set in the current scope; no pipe interpreter on this path
+      evalList W f ctx { st with stack := setTemplateBound W.P attrs st.stack } kids
     else evalPlain W f ctx st tag attrs kids
 
 /-- `evalVFor`: the loop, and an immediately following v-else sibling when the loop produced nothing -/
@@ -402,107 +460,54 @@ def evalVFor (W : World) : Nat → Ctx → St → Str → List Attr → List Nod
     let vFor := getAttr attrs (S "v-for")
     if vFor == [] then .ok (([], 0), st)
     else
-      match evalFor W f ctx st tag attrs kids vFor with
-      | .ok (loopNodes, st1) =>
+      bindR (evalFor W f ctx st tag attrs kids vFor) (fun loopNodes st1 =>
         if !loopNodes.isEmpty then .ok ((loopNodes, 0), st1)
         else
           -- first element sibling (non-elements skipped)
           let j := (rest.takeWhile (fun x => !isElem x)).length
-          (match rest[j]? with
-           | some (.elem t a k) =>
-             if hasAttr a (S "v-else") then
-               (match evalAsElement W f ctx st1 t a k with
-                | .ok (res, st2) => .ok ((res, j + 1), st2)
-                | e => e.castErr)
-             else .ok (([], 0), st1)
-           | _ => .ok (([], 0), st1))
-      | e => e.castErr
+          match rest[j]? with
+          | some (.elem t a k) =>
+            if hasAttr a (S "v-else") then bindR (evalAsElement W f ctx st1 t a k) (fun res st2 => .ok ((res, j + 1), st2))
+            else .ok (([], 0), st1)
+          | _ => .ok (([], 0), st1))
 
 /-- `evalFor` -/
 def evalFor (W : World) : Nat → Ctx → St → Str → List Attr → List Node → Str → R (List Node)
   | 0, _, _, _, _, _, _ => .fuel
   | f + 1, ctx, st, tag, attrs, kids, expr =>
-    match parseFor expr with
-    | .ok (vars, coll) =>
-      (match st.stack.resolve W.P.cfg coll with
-       | .ok (some (.list _ xs)) => evalForItems W f ctx st tag (removeAttr attrs (S "v-for")) kids vars xs 0
-       | .ok (some (.map _ kvs)) => evalForItems W f ctx st tag (removeAttr attrs (S "v-for")) kids vars (kvs.map (·.2)) 0
-       | .ok _ => .ok ([], st)
-       | e => e.castErr)
-    | e => e.castErr
+    bindE (parseFor expr) (fun vc =>
+      bindE (st.stack.resolve W.P.cfg vc.2) (fun coll =>
+        match coll with
+        | some (.list _ xs) => evalForItems W f ctx st tag (removeAttr attrs (S "v-for")) kids vc.1 xs 0
+        | some (.map _ kvs) => evalForItems W f ctx st tag (removeAttr attrs (S "v-for")) kids vc.1 (kvs.map (·.2)) 0
+        | _ => .ok ([], st)))
 
 def evalForItems (W : World) : Nat → Ctx → St → Str → List Attr → List Node → List Str → List Val → Nat → R (List Node)
   | 0, _, _, _, _, _, _, _, _ => .fuel
   | _ + 1, _, st, _, _, _, _, [], _ => .ok ([], st)
   | f + 1, ctx, st, tag, attrs, kids, vars, x :: xs, i =>
-    let pushed := st.stack.push []
-    let bound : Option Stack := match vars with
-      | [v] => some (pushed.set v x)
-      | [iv, v] => some ((pushed.set iv (.int .int i)).set v x)
-      | _ => none
-    match bound with
+    match loopStack st.stack vars x i with
     | none => .err "v-for" (S "v-for variables must be 1 or 2, got " ++ natToStr vars.length)
     | some sk =>
-      (match evalList W f ctx { st with stack := sk } [.elem tag attrs kids] with
-       | .ok (res, st1) =>
-         let sk2 := (propagateNode W.P.cfg st1.stack (.elem tag attrs kids)).pop
-         (match evalForItems W f ctx { st1 with stack := sk2 } tag attrs kids vars xs (i + 1) with
-          | .ok (more, st2) => .ok (res ++ more, st2)
-          | e => e)
-       | e => e)
+      bindR (evalList W f ctx { st with stack := sk } [.elem tag attrs kids]) (fun res st1 =>
+        prepend res (evalForItems W f ctx { st1 with stack := (propagateNode W.P.cfg st1.stack (.elem tag attrs kids)).pop } tag attrs kids vars xs (i + 1)))
 
 /-- `evalTemplate([node], env)` for a `<template>` reached by the main loop -/
 def evalTemplate (W : World) : Nat → Ctx → St → List Attr → List Node → R (List Node)
   | 0, _, _, _, _ => .fuel
   | f + 1, ctx, st, attrs, kids =>
     if hasAttr attrs (S "include") then
-      match evalAttributes W.P st.stack attrs with
-      | .ok (attrs', vars) =>
-        let vars := vars.filter (fun kv => kv.1 != S "include")
-        let vars := vars.map (fun (kv : Str × Val) => match kv.2 with
-          | .str t => if hasPrefix t ['{'] || hasPrefix t ['['] then (match W.jsonDecode t with | some v => (kv.1, v) | none => kv) else kv
-          | _ => kv)
-        evalInclude W f ctx st attrs' kids vars
-      | e => e.castErr
+      bindE (evalAttributes W.P st.stack attrs) (fun av => evalInclude W f ctx st av.1 kids (decodeVars W.jsonDecode av.2))
     else
       match checkRequired attrs (st.stack.envMap W.P.cfg) with
       | some missing => .err "required" (S "required attribute '" ++ missing ++ S "' not provided")
       | none =>
-        (match evalVContent W.P st.stack attrs (S "v-html") sVHtml false with
-         | .ok (some attrs') => .ok ([.elem (S "template") attrs' kids], st)
-         | .ok none =>
-           if (contentAttrs attrs).1 != [] || attrs.any (fun a => a.1 == sVHtml) then .ok ([.elem (S "template") attrs kids], st)
-           else
-             -- every attribute sets a variable in the current scope
-             let stackR : Res Stack := attrs.foldl (fun (acc : Res Stack) (a : Attr) =>
-               match acc with
-               | .ok sk =>
-                 let key := a.1
-                 let val := trimSpace a.2
-                 if hasPrefix key (S "v-") && !(hasPrefix key (S "v-bind:")) then .ok sk
-                 else if hasPrefix key (S "v-bind:") && false then .ok sk
-                 else match (if hasPrefix key [':'] then some (key.drop 1) else if hasPrefix key (S "v-bind:") then none else none) with
-                   | some name =>
-                     if name == S "require" || name == S "required" then .ok sk
-                     else
-                       (match evalPipe W.P sk (parsePipeExpr val) with
-                        | .ok v => .ok (sk.set name v)
-                        | .err _ _ =>
-                          (match W.P.exprEval val (sk.envMap W.P.cfg) with
-                           | .ok v => .ok (sk.set name v)
-                           | .err _ _ => (match sk.resolve W.P.cfg val with | .ok (some v) => .ok (sk.set name v) | .ok none => .ok (sk.set name .nil) | r => r.castErr)
-                           | r => r.castErr)
-                        | r => r.castErr)
-                   | none =>
-                     if hasPrefix key (S "v-") then .ok sk   -- v-bind: keys start with "v-": skipped by the `v-` test, as in the code
-                     else if hasPrefix val ['{'] || hasPrefix val ['['] then
-                       (match W.jsonDecode val with | some v => .ok (sk.set key v) | none => .ok (sk.set key (.str val)))
-                     else .ok (sk.set key (.str val))
-               | e => e) (.ok st.stack)
-             (match stackR with
-              | .ok sk => evalList W f ctx { st with stack := sk } kids
-              | e => e.castErr)
-         | e => e.castErr)
+        bindE (evalVContent W.P st.stack attrs (S "v-html") sVHtml false) (fun h =>
+          match h with
+          | some attrs' => .ok ([.elem (S "template") attrs' kids], st)
+          | none =>
+            if attrs.any (fun a => a.1 == sVHtml) then .ok ([.elem (S "template") attrs kids], st)
+            else bindE (setTemplateAttrs W.P W.jsonDecode attrs st.stack) (fun sk => evalList W f ctx { st with stack := sk } kids))
 
 /-- `evalInclude` -/
 def evalInclude (W : World) : Nat → Ctx → St → List Attr → List Node → Scope → R (List Node)
@@ -512,45 +517,29 @@ def evalInclude (W : World) : Nat → Ctx → St → List Attr → List Node →
       .err "include-depth" (S "include depth exceeded maximum of " ++ natToStr includeLimit ++ S " (included from " ++ formatChain ctx ++ S "), possible circular include")
     else
       let name := getAttr attrs (S "include")
-      let pushed := st.stack.push vars
-      let ctx1 : Ctx := { ctx with slots := some (extractSlotContent kids) }
       match W.files.lookup name with
       | none => .err "load" (S "error loading " ++ name ++ S " (included from " ++ formatChain ctx ++ S ")")
       | some (fm, dom) =>
-        let sk := setMany pushed fm
+        let sk := setMany (st.stack.push vars) fm
         let dom1 := resolveTagsList W.comps (assignSeenAttrs name dom)
-        let reqErr : Option Str := match dom1 with
-          | .elem t a _ :: _ => if t == S "template" && !hasAttr a (S "include") then checkRequired a (sk.envMap W.P.cfg) else none
-          | _ => none
-        (match reqErr with
-         | some missing => .err "required" (S "error in " ++ name ++ S " (included from " ++ formatChain ctx ++ S "): required attribute '" ++ missing ++ S "' not provided")
-         | none =>
-           (match evalList W f { ctx1 with chain := ctx.chain ++ [name] } { st with stack := sk } dom1 with
-            | .ok (res, st1) => .ok (res, { st1 with stack := st1.stack.pop })
-            | e => e))
+        match wrapperRequired dom1 (sk.envMap W.P.cfg) with
+        | some missing => .err "required" (S "error in " ++ name ++ S " (included from " ++ formatChain ctx ++ S "): required attribute '" ++ missing ++ S "' not provided")
+        | none =>
+          bindR (evalList W f { slots := some (extractSlotContent kids), chain := ctx.chain ++ [name] } { st with stack := sk } dom1)
+            (fun res st1 => .ok (res, { st1 with stack := st1.stack.pop }))
 
 /-- `evalSlot` -/
 def evalSlot (W : World) : Nat → Ctx → St → List Attr → List Node → R (List Node)
   | 0, _, _, _, _ => .fuel
   | f + 1, ctx, st, attrs, kids =>
     let name := if getAttr attrs (S "name") == [] then S "default" else getAttr attrs (S "name")
-    let env := st.stack.envMap W.P.cfg
-    let props : Scope := attrs.foldl (fun (ps : Scope) (a : Attr) =>
-      match a.1 with
-      | ':' :: pn => (match W.P.exprEval a.2 env with | .ok .nil => ps | .ok v => Scope.set ps pn v | _ => ps)
-      | _ => ps) []
+    let props := slotProps W.P (st.stack.envMap W.P.cfg) attrs
     match ctx.slots.bind (fun sc => sc.lookup name) with
     | some content =>
       (match content.tmpl with
-       | some (tattrs, tkids) =>
-         let sv := scopedVarName tattrs
-         let pushed := st.stack.push []
-         let sk := match destructuredNames sv with
-           | some names => names.foldl (fun (k : Stack) nm => match Scope.get props nm with | some v => k.set nm v | none => k) pushed
-           | none => if sv != [] then pushed.set sv (.map .anyMap props) else setMany pushed props
-         (match evalList W f ctx { st with stack := sk } tkids with
-          | .ok (res, st1) => .ok (res, { st1 with stack := st1.stack.pop })
-          | e => e)
+       | some tk =>
+         bindR (evalList W f ctx { st with stack := slotScopeStack st.stack (scopedVarName tk.1) props } tk.2)
+           (fun res st1 => .ok (res, { st1 with stack := st1.stack.pop }))
        | none => evalList W f ctx st content.nodes)
     | none => if !kids.isEmpty then evalList W f ctx st kids else .ok ([], st)
 
